@@ -200,15 +200,18 @@ class LoggedCtx(AsyncContext):
             self.nres += 1
             f = self.fault
             if f is not None and "resume" in f and f["resume"][0] == self.nres:
+                if f.get("sticky"):
+                    self.pause_failed = True   # a context that is broken once it failed: every later pause() raises too
                 raise self.T.err(f["resume"][1])
 
     def pause(self):
         self.T.ev.append({"EvPause": [list(self.tid), self.cid]})
         f = self.fault
         if self.pause_failed and f.get("sticky"):
-            # a persistent failure (e.g. "no suspension with uncommitted writes"): once pause() has failed, it fails on
-            # every later call, whoever makes it (scheduler or the with block's __exit__)
-            raise self.T.err(f["pause"][1])
+            # a persistent failure (e.g. "no suspension with uncommitted writes"): once pause() (or, for a sticky resume
+            # fault, resume()) has failed, pause() fails on every later call, whoever makes it (scheduler or the with
+            # block's __exit__)
+            raise self.T.err((f.get("pause") or f.get("resume"))[1])
         if not self.by_block:
             self.npause += 1
             if f is not None and "pause" in f and f["pause"][0] == self.npause:
